@@ -7,6 +7,7 @@ package c06a
 
 import (
 	"fmt"
+	"strings"
 
 	meshconfig "istio.io/api/mesh/v1alpha1"
 	"istio.io/istio/pilot/pkg/features"
@@ -961,6 +962,37 @@ spec:
 ---
 `
 
+const outlierBlock = `    outlierDetection:
+      consecutive5xxErrors: 3
+      interval: 10s
+      baseEjectionTime: 30s
+`
+
+const drZoneAware = `
+apiVersion: networking.istio.io/v1
+kind: DestinationRule
+metadata:
+  name: b-zone-aware
+  namespace: default
+spec:
+  host: b.default.svc.cluster.local
+  trafficPolicy:
+    outlierDetection:
+      consecutive5xxErrors: 3
+      interval: 10s
+      baseEjectionTime: 30s
+    loadBalancer:
+      simple: ROUND_ROBIN
+      zoneAwareLbSetting:
+        enabled: true
+        failover:
+        - from: region1
+          to: region2
+        failoverPriority:
+        - version
+---
+`
+
 const sidecarAllowAny = `
 apiVersion: networking.istio.io/v1
 kind: Sidecar
@@ -1057,6 +1089,9 @@ func configurations() []*cfg {
 		{Name: "self-discovery", Family: "cluster", Base: "sidecar", YAML: drOutlierOnly, BaseEdit: func(n *nodeSpec) {
 			n.Meta.EnableSelfDiscovery = true
 		}},
+		{Name: "zone-aware", Family: "locality", Base: "sidecar", YAML: drZoneAware, BaseEdit: func(n *nodeSpec) { n.Meta.EnableSelfDiscovery = true }},
+		{Name: "zone-aware-no-outlier-router", Family: "locality", Base: "router", YAML: gwHTTP + strings.Replace(drZoneAware, outlierBlock, "", 1)},
+		{Name: "traffic-distribution", Family: "locality", Base: "sidecar", World: worldOpts{TrafficDist: true}},
 		{Name: "node-local", Family: "cluster", Base: "sidecar", World: worldOpts{NodeLocalB: true}},
 
 		{Name: "dr-workload-selector", Family: "destinationrule", Base: "sidecar", YAML: drWorkloadSelector},
